@@ -458,7 +458,8 @@ def run(ctx):
                    "behind that member, i.e. into the structure (overlap warning, the member behind it is overwritten): same root cause as the "
                    "open C08 finding of that name")
     for fam, it in (("enum-struct-layout-orders", G.enum_struct_layout_orders()), ("enum-minmax-terminated", ((c, v, False) for c, v in G.enum_minmax_terminated())),
-                    ("enum-masked-holes", ((c, v, False) for c, v in G.enum_masked_holes())), ("enum-field-layouts", ((c, v, False) for c, v in G.enum_field_layouts()))):
+                    ("enum-masked-holes", ((c, v, False) for c, v in G.enum_masked_holes())), ("enum-field-layouts", ((c, v, False) for c, v in G.enum_field_layouts())),
+                    ("enum-after-complex", ((c, v, False) for c, v in G.enum_after_complex()))):
         fixed, comps, flagged = {}, [], set()
         for c, v, issue in it:
             if c.name not in fixed:
